@@ -101,15 +101,7 @@ def run(chk: Check) -> None:
     for a, where in sorted(read_opts.items()):
         r1.violation(f"unkeyed input: options.{a} read under the subtype memo", where, f"`options.{a}` is read by the subtype computation while `options` is not part of the memo key")
     # lookup / record agreement inside visit_instance
-    vi = ix.func("mypy.subtypes.SubtypeVisitor.visit_instance")
-    calls = [n for n in ast.walk(vi.node) if isinstance(n, ast.Call) and call_name(n) in ("is_cached_subtype_check", "is_cached_negative_subtype_check", "record_subtype_cache_entry", "record_negative_subtype_cache_entry")]
-    if len(calls) < 4:
-        raise AnalysisError("visit_instance: memo lookups/records not found")
-    argsets = {tuple(norm(a) for a in c.args) for c in calls}
-    if len(argsets) == 1 and list(argsets)[0][0] == "self._subtype_kind":
-        r1.ok("visit_instance: lookups and records use (self._subtype_kind, left, right)", vi.loc(calls[0]), f"{len(calls)} call sites")
-    else:
-        r1.violation("visit_instance: lookups and records use (self._subtype_kind, left, right)", vi.loc(calls[0]), f"memo lookups and records disagree on their arguments: {sorted(argsets)}")
+    vi = memo_call_sites_agree(r1, ix)
     # polarity: positive lookup returns True, negative returns False; positive record only after a True answer
     g = CFG(vi.node)
     for n in g.nodes:
@@ -187,6 +179,20 @@ def run(chk: Check) -> None:
             r2.ok(key, f"{c.module.relpath}:{c.node.lineno}", f"hash {sorted(h)}")
         else:
             r2.violation(key, f"{c.module.relpath}:{c.node.lineno}", f"__hash__ uses {sorted(extra)} which __eq__ does not compare: two equal {c.name} values can hash differently, so a memoised (left, right) pair is not found again (or, if __eq__ is the weaker one, conflated)")
+
+
+def memo_call_sites_agree(rule, ix):
+    """All memo lookups and records of SubtypeVisitor.visit_instance use (self._subtype_kind, left, right). Returns the function."""
+    vi = ix.func("mypy.subtypes.SubtypeVisitor.visit_instance")
+    calls = [n for n in ast.walk(vi.node) if isinstance(n, ast.Call) and call_name(n) in ("is_cached_subtype_check", "is_cached_negative_subtype_check", "record_subtype_cache_entry", "record_negative_subtype_cache_entry")]
+    if len(calls) < 4:
+        raise AnalysisError("visit_instance: memo lookups/records not found")
+    argsets = {tuple(norm(a) for a in c.args) for c in calls}
+    if len(argsets) == 1 and list(argsets)[0][0] == "self._subtype_kind":
+        rule.ok("visit_instance: lookups and records use (self._subtype_kind, left, right)", vi.loc(calls[0]), f"{len(calls)} call sites")
+    else:
+        rule.violation("visit_instance: lookups and records use (self._subtype_kind, left, right)", vi.loc(calls[0]), f"memo lookups and records disagree on their arguments: {sorted(argsets)}: an answer computed for one key (one module's options) is handed to a query with another, so what a module is told depends on which modules were checked before it")
+    return vi
 
 
 def run_tuple_siblings(chk: Check, ix) -> None:
